@@ -55,14 +55,61 @@ func genBuildBase(p *PRNG, n int) []*Case {
 			files["root.jst"] = []byte(RenderTree(tree, l))
 			add(buildCase("rendered-split", files, "root.jst"))
 		default:
-			if p.Chance(1, 2) {
+			switch p.Intn(3) {
+			case 0:
 				add(singleBuild("special", []byte(Pick(p, specialDocs))))
-			} else {
+			case 1:
 				add(singleBuild("path-rules", []byte(pathRuleDoc(p))))
+			default:
+				add(singleBuild("schema-shapes", []byte(schemaShapeDoc(p))))
 			}
 		}
 	}
 	return cases
+}
+
+// schemaShapeDoc: user types of every notation and shape (object, scalar, regex, any, empty, or-types
+// with and without blanks around '|', mutually recursive or-types, allOf chains) referred to from every
+// place a schema can stand (Path body / property, Headers, Query, request and response bodies, JSON-RPC
+// Params / Result, allOf). Most combinations are invalid documents: they must be refused with an error
+// value, and whatever is accepted must serialise
+func schemaShapeDoc(p *PRNG) string {
+	var b strings.Builder
+	b.WriteString("JSIGHT 0.3\n")
+	b.WriteString("TYPE @obj\n{\n  \"id\": 1\n}\nTYPE @rx regex\n  /[a-z]{3}/\nTYPE @an any\nTYPE @em empty\nTYPE @num\n  12\n")
+	b.WriteString("TYPE @ra\n  @rb | @num\nTYPE @rb\n  @ra | @num\n") // mutually recursive
+	or := Pick(p, []string{"@obj | @num", "@obj|@num", "@rx|@num", "@ra | @rb", "@num |@rx"})
+	b.WriteString("TYPE @orT\n  " + or + "\n")
+	b.WriteString("TYPE @holder\n{\n  \"pet\": " + Pick(p, []string{"@obj|@num", "@obj | @rx", "@ra", "@orT"}) + "\n}\n")
+	ref := func() string {
+		return Pick(p, []string{"@obj", "@rx", "@an", "@em", "@num", "@ra", "@orT", "@holder", "@nope"})
+	}
+	inline := func() string {
+		switch p.Intn(4) {
+		case 0:
+			return "{ // {allOf: \"" + Pick(p, []string{"@holder", "@obj", "@rx", "@orT"}) + "\"}\n      \"since\": 2020\n    }"
+		case 1:
+			return "{\n      \"k\": " + ref() + "\n    }"
+		case 2:
+			return "{\n      \"k\": " + Pick(p, []string{"@obj|@num", "@ra | @rb", "@rx |@an"}) + "\n    }"
+		}
+		return ref()
+	}
+	switch p.Intn(6) {
+	case 0:
+		b.WriteString("GET /x/{id}\n  Path\n    " + inline() + "\n  200 any\n")
+	case 1:
+		b.WriteString("GET /x/{id}\n  Path\n    {\n      \"id\": " + ref() + "\n    }\n  200 any\n")
+	case 2:
+		b.WriteString("POST /x\n  Request\n    Headers\n      " + inline() + "\n    Body any\n  200\n    Headers\n      " + inline() + "\n    Body any\n")
+	case 3:
+		b.WriteString("GET /x\n  Query \"a=1\"\n    " + inline() + "\n  200\n    " + inline() + "\n")
+	case 4:
+		b.WriteString("URL /rpc\n  Protocol json-rpc-2.0\n  Method m\n    Params\n      " + inline() + "\n    Result\n      " + inline() + "\n")
+	default:
+		b.WriteString("PUT /x\n  Request " + ref() + "\n  200 " + ref() + "\n  404\n    " + inline() + "\n")
+	}
+	return b.String()
 }
 
 // pathRuleDoc: paths with one to three parameters, a Path directive that describes some of them
